@@ -5,7 +5,7 @@ from .. import common, replay
 from ..adapters.transform import TransformAdapter
 
 INVARIANTS = ['TypeOK', 'StoredIsReduced', 'NotifiedValueIsReadBack', 'DeliveryReadsPayload', 'StoredIsLastAssigned',
-              'LastNotificationIsReadBack', 'OnlyMatchingEvent', 'OncePerListener']
+              'LastNotificationIsReadBack', 'OnlyMatchingEvent', 'OncePerListener', 'RaiseEndsTheCall']
 PROPERTIES = ['ConstructedLikeAssigned', 'DefaultsNotShared', 'StoresAssigned']
 
 
@@ -29,6 +29,17 @@ def replay_graph(res, name, g, kinds, depth_all=4, init_stride=1, walks=1500, wa
     def factory():
         return TransformAdapter(desper, kinds)
 
+    if replay.REPLAY is not None:
+        # --replay: listener order / style / exception class of the original run came from a per-worker counter
+        # that is not part of the record: execute the history under every combination until one diverges
+        if not replay.REPLAY.get('done'):
+            for k in range(TransformAdapter.VARIANTS):
+                replay.REPLAY.pop('done', None)
+                st = replay.run_paths(g, lambda: TransformAdapter(desper, kinds, start=k), ())
+                if st.n_violations or not replay.REPLAY.get('done'):
+                    break
+            res.absorb(st, name + ':replay', g)
+        return
     st = replay.run_paths(g, factory, replay.edge_paths(g))
     res.absorb(st, name + ':every-edge', g)
     if not st.n_violations and depth_all:
@@ -61,6 +72,13 @@ def run(res):
         'dispatch, not counted against C20; every non-stale last notification must equal the read, and the stored value '
         'must be the most recently assigned one',
         'sharing of default objects between instances is flagged only if the shared object is mutable (Vec types are tuples)',
+        'listeners are instances of one decorated class each or (every other pair of behaviours) of ONE class with the '
+        'event -> method mapping in a per-instance __events__, which is all the EventHandler protocol asks for',
+        'a listener that raises from its callback (an Exception or a BaseException subclass of the harness): the value '
+        'has been stored and stays stored, the listeners of the snapshot not yet served are not called (which ones '
+        'were served before is the iteration order: a choice of the specification), the exception reaches the caller '
+        'of the assignment - through the callback of a re-assigning listener too; "exactly once" is demanded of the '
+        'assignments during which nobody raised, "at most once" of the others',
     ]
     vecs = ['va', 'vb']
     instances = [
@@ -80,6 +98,12 @@ def run(res):
                                           reg='Reg_Full', beh='Beh_Clamp'), dict(walks=800)),
         ('c20_clamp3d', [], ['q'], consts([], ['q'], vecs, False, rot='Rot_Few', subs='Subs_Both', ctor='Ctor_None',
                                           reg='Reg_Full', beh='Beh_Clamp'), dict(walks=800)),
+        # a listener raises from its callback, alone or next to a re-assigning one: outcome of the call, how far the
+        # dispatch got (both iteration orders), the value kept
+        ('c20_raise2d', ['p'], [], consts(['p'], [], vecs, False, rot='Rot_Few', subs='Subs_Both', ctor='Ctor_None',
+                                          reg='Reg_Full', beh='Beh_Raise'), dict(init_stride=2, walks=800)),
+        ('c20_raise3d', [], ['q'], consts([], ['q'], vecs, False, rot='Rot_Few', subs='Subs_Both', ctor='Ctor_None',
+                                          reg='Reg_Full', beh='Beh_Raise'), dict(init_stride=2, walks=800)),
     ]
 
     def mc(inst):
@@ -105,6 +129,12 @@ def run(res):
                                           'NotifiedValueIsReadBack', 'StoresAssigned'))
         # ... and "what survives is the most recent assignment" alone (a clamp overwritten by the outer store)
         res.model_check('TransformMC', 'c20_notify_before_store_final', c, invariants=['StoredIsLastAssigned'],
+                        overrides=ov, count=False, workers=2, expect_violation='StoredIsLastAssigned')
+        # ... with a raising listener the value is then never stored: told to the listeners, not what a read returns
+        c, ov = consts([], ['q'], vecs, False, store_first=False, **dict(clamp3d, beh='Beh_Raise'))
+        res.model_check('TransformMC', 'c20_raise_not_stored', c, invariants=['NotifiedValueIsReadBack'],
+                        overrides=ov, count=False, workers=2, expect_violation='NotifiedValueIsReadBack')
+        res.model_check('TransformMC', 'c20_raise_not_stored_final', c, invariants=['StoredIsLastAssigned'],
                         overrides=ov, count=False, workers=2, expect_violation='StoredIsLastAssigned')
         # documentation: without the stale-delivery exception the property fails on the *intended* model
         c, ov = consts([], ['q'], vecs, False, **clamp3d)
